@@ -352,7 +352,8 @@ func CheckTunnelShape(body []byte, ref TunnelRef) (iv []byte, why string) {
 
 // TakeOver forges an entry chain from genuine encoded entries: entries [0,p) are kept, entry p keeps
 // the genuine PreviousHash / HeaderHash / Extra but names pub (the attacker's key) and is signed by
-// signedBy (anybody but the legitimate holder of the key named by entry p-1), and `tail` further
+// signedBy (anybody but the legitimate holder of the key named by entry p-1; nil: the genuine signature
+// bytes are kept over the changed payload), and `tail` further
 // entries are appended that are correctly hashed, name pub again and are signed by the attacker —
 // so every link except link p is formally valid. Later genuine entries are dropped.
 func TakeOver(entries [][]byte, p int, pub *refcbor.Node, signedBy crypto.Signer, signedByAlg int64, attacker crypto.Signer, attackerAlg int64, tail int) ([][]byte, error) {
@@ -369,9 +370,21 @@ func TakeOver(entries [][]byte, p int, pub *refcbor.Node, signedBy crypto.Signer
 	}
 	pl = refcbor.Clone(pl)
 	pl.Items[3] = pub
-	forged, err := Sign1(signedBy, signedByAlg, nil, nil, refcbor.EncodeKeepOrder(pl), true)
-	if err != nil {
-		return nil, err
+	var forged *refcbor.Node
+	if signedBy == nil {
+		// keep the genuine entry's protected header and signature bytes over the changed payload
+		// (no key needed at all: the signature simply no longer matches)
+		orig, err := refcbor.ParseAll(entries[p])
+		if err != nil || orig.Kind != refcbor.Tag || len(orig.Items) != 1 || len(orig.Items[0].Items) != 4 {
+			return nil, fmt.Errorf("entry %d is not a tagged COSE_Sign1", p)
+		}
+		forged = refcbor.Clone(orig)
+		forged.Items[0].Items[2] = refcbor.B(refcbor.EncodeKeepOrder(pl))
+	} else {
+		forged, err = Sign1(signedBy, signedByAlg, nil, nil, refcbor.EncodeKeepOrder(pl), true)
+		if err != nil {
+			return nil, err
+		}
 	}
 	out := append([][]byte{}, entries[:p]...)
 	out = append(out, refcbor.EncodeKeepOrder(forged))
